@@ -432,3 +432,68 @@ Proof.
   revert b; induction a as [|x a IH]; intros [|y b]; cbn; try (split; congruence).
   rewrite andb_true_iff, ostr_eqb_spec, IH. split; [intros [-> ->]; reflexivity|intros H; inversion H; auto].
 Qed.
+
+(* ---- transfer to scans that only look at a candidate list (what NamedGlob.glob() does) ---- *)
+
+Section Candidates.
+  Variable K : Type.
+  Variable keqb : K -> K -> bool.
+  Hypothesis keqb_spec : forall a b, keqb a b = true <-> a = b.
+  Variable mv : str -> option K.
+
+  Lemma scan_equiv l1 l2 :
+    (forall q, mv q <> None -> (In q l1 <-> In q l2)) ->
+    results_eqb keqb (scan keqb mv l1) (scan keqb mv l2) = true.
+  Proof.
+    intros H. destruct (scan_spec K keqb keqb_spec mv l1) as [W1 H1].
+    destruct (scan_spec K keqb keqb_spec mv l2) as [W2 H2].
+    apply (results_eqb_spec K keqb keqb_spec mv _ _ W1 W2). intros k q. rewrite H1, H2.
+    split; intros [Hin Hk]; (split; [|exact Hk]); apply H; try exact Hin; congruence.
+  Qed.
+
+  Lemma results_eqb_trans a b c :
+    wf_results K mv a -> wf_results K mv b -> wf_results K mv c ->
+    results_eqb keqb a b = true -> results_eqb keqb b c = true -> results_eqb keqb a c = true.
+  Proof.
+    intros Wa Wb Wc Hab Hbc.
+    apply (results_eqb_spec K keqb keqb_spec mv _ _ Wa Wb) in Hab.
+    apply (results_eqb_spec K keqb keqb_spec mv _ _ Wb Wc) in Hbc.
+    apply (results_eqb_spec K keqb keqb_spec mv _ _ Wa Wc). intros k q. rewrite (Hab k q). apply Hbc.
+  Qed.
+
+  (* If, before and after the change, the candidate list contains exactly the existing paths as
+     far as accepted paths are concerned (candidates complete and sound for the matcher), the
+     update law holds for scans of the candidate lists. *)
+  Theorem update_equals_rescan_candidates :
+    forall (fs fs' cands cands' added deleted : list str),
+      (forall q, mv q <> None -> (In q cands <-> In q fs)) ->
+      (forall q, mv q <> None -> (In q cands' <-> In q fs')) ->
+      (forall p, In p added -> In p fs') ->
+      (forall p, In p deleted -> ~ In p fs') ->
+      (forall p, mv p <> None -> (In p fs' <-> (In p fs /\ ~ In p deleted) \/ In p added)) ->
+      let old := scan keqb mv cands in
+      let upd := reduce keqb mv (extend keqb mv old added) deleted in
+      results_eqb keqb upd (scan keqb mv cands') = true
+      /\ (will_change keqb mv old deleted added = None <-> results_eqb keqb old (scan keqb mv cands') = true).
+  Proof.
+    intros fs fs' cands cands' added deleted Hc Hc' Hadd Hdel Hfs old upd.
+    assert (Hreach : reachable K keqb mv old) by (apply reach_extend; apply reach_nil).
+    assert (Hold : results_eqb keqb old (scan keqb mv fs) = true) by (apply scan_equiv; exact Hc).
+    destruct (update_equals_rescan K keqb keqb_spec mv old fs fs' added deleted Hreach Hold Hadd Hdel Hfs)
+      as [H1 [_ H3]]. fold upd in H1.
+    assert (Heq' : results_eqb keqb (scan keqb mv fs') (scan keqb mv cands') = true)
+      by (apply scan_equiv; intros q Hq; symmetry; apply Hc'; exact Hq).
+    assert (Heq'' : results_eqb keqb (scan keqb mv cands') (scan keqb mv fs') = true)
+      by (apply scan_equiv; exact Hc').
+    pose proof (reachable_wf K keqb keqb_spec mv old Hreach) as Wold.
+    destruct (scan_spec K keqb keqb_spec mv fs') as [Wfs' _].
+    destruct (scan_spec K keqb keqb_spec mv cands') as [Wc' _].
+    assert (Wupd : wf_results K mv upd).
+    { apply (reachable_wf K keqb keqb_spec). apply reach_reduce. apply reach_extend. exact Hreach. }
+    split.
+    - eapply results_eqb_trans; [exact Wupd|exact Wfs'|exact Wc'|exact H1|exact Heq'].
+    - rewrite H3. split; intros H.
+      + eapply results_eqb_trans; [exact Wold|exact Wfs'|exact Wc'|exact H|exact Heq'].
+      + eapply results_eqb_trans; [exact Wold|exact Wc'|exact Wfs'|exact H|exact Heq''].
+  Qed.
+End Candidates.
